@@ -5,7 +5,7 @@
     read the same in both trees.  (pathB) *)
 From Coq Require Import List Arith Bool ZArith Lia.
 From P9V Require Import Refs.Model Refs.PathFS Refs.RefProofs Refs.RefStep Refs.FenceProofs
-  Refs.CoherentTree Refs.CoherentDefs Refs.CoherentFs Refs.CoherentFrame Refs.CoherentStep.
+  Refs.TreeInv Refs.CoherentTree Refs.CoherentDefs Refs.CoherentFs Refs.CoherentFrame Refs.CoherentStep Refs.CoherentTreeHyp.
 Import ListNotations.
 
 (** only path nodes (and the out-of-fuel flag) change *)
@@ -113,6 +113,64 @@ Proof.
   - split; [exact O2|]. split; [exact L2|]. split; [exact P2|]. intros m Hm. rewrite D2. exact Hm.
 Qed.
 
+(** ---- notifyDelete marks only what it reaches ---- *)
+Lemma nch_nodes_same (s s' : st) : nodes_same pfs s s' -> forall a x, nch s' a x = nch s a x.
+Proof. intros (_ & N) a x. unfold nch. change (gnode ?t a) with (FenceProofs.gnode pfs t a). rewrite N. reflexivity. Qed.
+
+Lemma nd_only fuel : forall n (s : st) m, rkeys s ->
+  pn_deleted (gnode (notify_delete pfs fuel n s) m) = true ->
+  pn_deleted (gnode s m) = true \/ exists sg, walk (nch s) n sg = Some m.
+Proof.
+  induction fuel as [|f IH]; intros n s m K H; cbn [notify_delete] in H; [left; exact H|].
+  set (s1 := set_node pfs n (pn_with_deleted (get_node pfs s n)) s) in *.
+  assert (NS1 : nodes_same pfs s s1) by (apply ns_set_node; reflexivity).
+  assert (K1 : rkeys s1) by (apply rk_set_node; auto).
+  assert (D1 : pn_deleted (gnode s1 m) = true -> pn_deleted (gnode s m) = true \/ m = n).
+  { unfold s1. rewrite gnode_set_node. destruct ((m =? n) && (n <? nlen s)) eqn:X; auto.
+    apply andb_prop in X. destruct X as (X & _). apply Nat.eqb_eq in X. auto. }
+  assert (Fold : forall l st, nodes_same pfs s st -> rkeys st -> incl l (pn_nodes (gnode s n)) ->
+            pn_deleted (gnode (fold_left (fun st c => notify_delete pfs f (snd c) st) l st) m) = true ->
+            pn_deleted (gnode st m) = true \/ exists sg, walk (nch s) n sg = Some m).
+  { induction l as [|[x c] l IHl]; intros st NS Kst Hl Hm; cbn [fold_left] in Hm; [left; exact Hm|].
+    assert (NS' : nodes_same pfs s (notify_delete pfs f c st)) by (eapply nodes_same_trans; [exact NS | apply ns_notify_delete]).
+    destruct (IHl _ NS' (rk_notify_delete f c st Kst) (fun e He => Hl e (or_intror He)) Hm) as [Hd|Hw]; [|right; exact Hw].
+    cbn [snd] in Hd. destruct (IH c st m Kst Hd) as [Hd'|(sg & W)]; [left; exact Hd'|]. right.
+    exists (x :: sg). cbn [walk].
+    assert (E : nch s n x = Some c). { unfold nch. apply (In_alookup Nat.eqb Nat.eqb_spec); [apply (proj2 (K n)) | apply Hl; left; reflexivity]. }
+    rewrite E. rewrite <- W. apply walk_eq. intros a y. symmetry. apply nch_nodes_same. exact NS. }
+  destruct (Fold (pn_nodes (get_node pfs s n)) s1 NS1 K1 (incl_refl _) H) as [Hd|Hw]; [|right; exact Hw].
+  destruct (D1 Hd) as [Hd'| ->]; [left; exact Hd' | right; exists []; reflexivity].
+Qed.
+
+Lemma mcd_only n nm (s : st) m : n < nlen s -> rkeys s ->
+  pn_deleted (gnode (mark_child_deleted pfs pfs_step n nm s) m) = true ->
+  pn_deleted (gnode s m) = true \/ exists v sg, nch s n nm = Some v /\ walk (nch s) v sg = Some m.
+Proof.
+  intros Hn K. unfold mark_child_deleted, remove_with_name.
+  set (lp := match alookup Nat.eqb nm (pn_refs (get_node pfs s n)) with
+             | Some m => rwn_loop pfs n nm None m [] s | None => ([], s) end).
+  assert (H1 : fst lp = [] /\ nodes_same pfs s (snd lp) /\ rkeys (snd lp) /\ (forall k, pn_deleted (gnode (snd lp) k) = pn_deleted (gnode s k))).
+  { unfold lp. destruct (alookup Nat.eqb nm (pn_refs (get_node pfs s n))) as [l|];
+      [|cbn [fst snd]; split; [reflexivity|]; split; [apply nodes_same_refl|]; split; [exact K | reflexivity]].
+    split; [apply held_rwn_none|]. split; [apply ns_rwn_none|]. split; [apply rk_rwn_none; auto | apply del_rwn_none]. }
+  destruct lp as [held s1]. cbn [fst snd] in H1. destruct H1 as (-> & NS1 & K1 & D1). cbn [release_all].
+  set (s2 := set_node pfs n (pn_with_nodes (get_node pfs s1 n) (adel Nat.eqb nm (pn_nodes (get_node pfs s1 n)))) s1).
+  assert (K2 : rkeys s2).
+  { apply rk_set_node; auto. intros Kn. apply pkeys_with_nodes; auto. apply (gadel_nodup Nat.eqb Nat.eqb_spec). apply Kn. }
+  assert (D2 : forall k, pn_deleted (gnode s2 k) = pn_deleted (gnode s k)).
+  { intros k. unfold s2. rewrite gnode_set_node. destruct ((k =? n) && (n <? nlen s1)) eqn:X; [|apply D1].
+    apply andb_prop in X. destruct X as (X & _). apply Nat.eqb_eq in X. subst. cbn. apply D1. }
+  assert (Sub : forall a x c, nch s2 a x = Some c -> nch s a x = Some c).
+  { intros a x c. unfold nch, s2. rewrite gnode_set_node. destruct ((a =? n) && (n <? nlen s1)) eqn:X.
+    - apply andb_prop in X. destruct X as (X & _). apply Nat.eqb_eq in X. subst a. cbn [pn_nodes pn_with_nodes].
+      rewrite (alookup_adel Nat.eqb Nat.eqb_spec). destruct (x =? nm); [discriminate|]. intros H. change (nch s n x = Some c). rewrite <- (nch_nodes_same s s1 NS1 n x). exact H.
+    - intros H. change (nch s a x = Some c). rewrite <- (nch_nodes_same s s1 NS1 a x). exact H. }
+  fold (gnode s1 n). destruct (alookup Nat.eqb nm (pn_nodes (gnode s1 n))) as [v|] eqn:Ev.
+  - intros H. destruct (nd_only _ v s2 m K2 H) as [Hd|(sg & W)]; [left; rewrite <- D2; exact Hd|]. right.
+    exists v, sg. split; [rewrite <- (nch_nodes_same s s1 NS1); exact Ev | eapply walk_ext; eauto].
+  - intros H. left. rewrite <- D2. exact H.
+Qed.
+
 Lemma walk_reach (t : st) : (forall m x c, nch t m x = Some c -> c < nlen t) ->
   forall sg u c, walk (nch t) u sg = Some c -> reach pfs t u c (length sg).
 Proof.
@@ -173,9 +231,11 @@ Lemma unlink_core (s s2 : st) g n nm pi d :
   p_dirs (s_be pfs s2) = p_dirs (s_be pfs s) -> p_nextino (s_be pfs s2) = p_nextino (s_be pfs s) ->
   p_files (s_be pfs s2) = p_files (s_be pfs s) ->
   resolve (s_be pfs s) pi = Some d -> node_at s pi = Some n -> n < nlen s ->
+  (forall q p, q < rlen s -> live s q -> nonf s q -> fr_parent (gref s q) = Some p ->
+     exists x, nch s (fr_node (gref s p)) x = Some (fr_node (gref s q))) ->
   Good (mark_child_deleted pfs pfs_step n nm s2) g.
 Proof.
-  intros G ER EN EH EE ED EI EF Rd Wn Hn.
+  intros G ER EN EH EE ED EI EF Rd Wn Hn HP3.
   set (s3 := mark_child_deleted pfs pfs_step n nm s2).
   assert (Hn2 : n < nlen s2) by (unfold nlen; rewrite EN; exact Hn).
   destruct (mcd_spec n nm s2 Hn2) as ((_ & R3 & H3 & _ & B3 & _) & L3 & P3 & D3). fold s3 in R3, H3, B3, L3, P3, D3.
@@ -251,6 +311,27 @@ Proof.
   - intros r Hr. rewrite RL in Hr. rewrite GR, NL. apply (G_nbound _ _ G); auto.
   - intros r o Hr E. rewrite RL in Hr. rewrite GR in E |- *. eapply (G_xmode _ _ G); eauto.
   - intros r Hr Ep T'. rewrite RL in Hr. rewrite GR in Ep |- *. apply (G_root _ _ G); auto. apply TR; auto.
+  - intros r p Hr Lv N3 Ep. rewrite RL in Hr. apply LV in Lv. rewrite GR in Ep. pose proof (NF _ N3) as Nfs.
+    pose proof (G_pnonf _ _ G r p Hr Lv Nfs Ep) as Nfp.
+    unfold nonf, is_deleted. rewrite GR. destruct (pn_deleted (get_node pfs s3 (fr_node (gref s p)))) eqn:X; auto. exfalso.
+    assert (K2 : rkeys s2) by (intros m; rewrite GN2; apply (G_keys _ _ G)).
+    destruct (mcd_only n nm s2 _ Hn2 K2 X) as [Hd|(v & sg & Hv & Wv)].
+    { rewrite GN2 in Hd. unfold nonf, is_deleted in Nfp. congruence. }
+    rewrite CH2 in Hv. rewrite (walk_eq _ _ CH2) in Wv.
+    destruct (HP3 r p Hr Lv Nfs Ep) as (x & Cx).
+    destruct (G_parent _ _ G r p Hr Ep) as (Tr & _).
+    assert (W : node_at s2 (pi ++ [nm] ++ (sg ++ [x])) = Some (fr_node (gref s2 r))).
+    { unfold node_at. rewrite (walk_eq _ _ CH2). replace (gref s2 r) with (gref s r) by (unfold get_ref; rewrite ER; reflexivity).
+      rewrite walk_app, Wn. cbn [app walk]. rewrite Hv, walk_snoc, Wv. exact Cx. }
+    assert (N2 : NT s2).
+    { destruct N as [U R Bd Ps]. constructor.
+      - intros a y a' y' c. rewrite !CH2. apply U.
+      - intros a y. rewrite CH2. apply R.
+      - intros a y c. rewrite CH2. unfold nlen. rewrite EN. apply Bd.
+      - unfold nlen. rewrite EN. exact Ps. }
+    assert (Wn2 : node_at s2 pi = Some n) by (unfold node_at; rewrite (walk_eq _ _ CH2); exact Wn).
+    pose proof (below_victim_fenced n nm s2 pi (sg ++ [x]) r N2 Hn2 Wn2 W) as Y. fold s3 in Y.
+    unfold nonf, is_deleted in N3, Y. rewrite GR in N3. replace (gref s2 r) with (gref s r) in Y by (unfold get_ref; rewrite ER; reflexivity). congruence.
   - apply rk_mcd. intros m. rewrite GN2. apply (G_keys _ _ G).
   - rewrite RL. apply G.
 Qed.
@@ -275,15 +356,15 @@ Proof.
   destruct (e =? injBadQ); [exact K|]. cbn. repeat split; auto. left. eauto.
 Qed.
 
-Lemma gok_unlinkat c fid nm : gok [] (fun s => snd (do_unlinkat pfs pfs_step c fid nm s)).
+Lemma gokT_unlinkat c fid nm : gokT [] (fun s => snd (do_unlinkat pfs pfs_step c fid nm s)).
 Proof.
-  unfold do_unlinkat. apply with_fid_gok. intros r s d g Inv HP G.
+  unfold do_unlinkat. apply with_fid_gokT. intros r s d g Inv HP TT G _.
   assert (Hr : 0 < hc s r) by (apply HP; left; reflexivity).
   destruct (held_live s d r Inv Hr) as (Lr & Lvr).
   destruct (dir_guard pfs s r) eqn:DG; [exact G|]. cbv zeta.
   destruct (dir_guard_none s g r G Lr DG) as (Nf & Tr).
   pose proof (G_nbound _ _ G r Lr) as Hn.
-  destruct (pnf_spec (fr_node (gref s r)) nm s Hn (G_nt _ _ G)) as ((SC1 & SH1) & _ & _ & _ & H1 & B1 & R1 & _).
+  destruct (pnf_spec (fr_node (gref s r)) nm s Hn (G_nt _ _ G)) as ((SC1 & SH1) & _ & _ & _ & H1 & B1 & R1 & _ & EXT).
   destruct (path_node_for pfs (fr_node (gref s r)) nm s) as [cn s1]. cbn [fst snd] in *.
   assert (G1 : Good s1 g) by (eapply shrink_good; eauto).
   destruct (bcall_be (BUnlinkAt (fr_file (gref s r)) nm) s1) as (E1 & E2 & E3 & E4 & E5 & _).
@@ -305,6 +386,11 @@ Proof.
   - assert (G3 : Good (mark_child_deleted pfs pfs_step (fr_node (gref s r)) nm s2) g).
     { rewrite FPr in Rd. eapply (unlink_core s1 s2 g (fr_node (gref s r)) nm (fpath s1 r) dd); eauto.
       - rewrite <- EN1. apply (G_node _ _ G1); auto.
-      - pose proof (S_nlen _ _ SH1). lia. }
+      - pose proof (S_nlen _ _ SH1). lia.
+      - intros q p Hq Lq Nq Ep.
+        assert (GRq : forall z, gref s1 z = gref s z) by (intros; unfold get_ref; rewrite R1; reflexivity).
+        rewrite !GRq in *. unfold rlen in Hq. rewrite R1 in Hq. unfold live in Lq. rewrite GRq in Lq.
+        assert (Nqs : nonf s q). { unfold nonf, is_deleted in *. rewrite GRq in Nq. change (get_node pfs s1) with (gnode s1) in Nq. rewrite (S_del _ _ SH1) in Nq. exact Nq. }
+        destruct (p3_of_tree s q p TT Hq Lq Nqs Ep) as (x & Cx). exists x. apply EXT. exact Cx. }
     rewrite Ea. exact G3.
 Qed.
